@@ -356,10 +356,13 @@ func runC14(r *ev.Run) {
 	rt2 := chain.GenesisOptions{EpochInterval: 2, MaxValidators: 3, NoRewards: true, NodeExpiration: 14, Runtime: true, RtGroupSize: 3, RtMinPool: 3, NodeExpirations: []uint64{14, 5, 14}}
 	rt3 := chain.GenesisOptions{EpochInterval: 2, MaxValidators: 3, NoRewards: true, NodeExpiration: 14, Runtime: true, RtGroupSize: 2, RtBackupSize: 2, RtMaxNodesPerEnt: 1, ExtraNodes: true, MaxPerEntity: 2}
 	rt4 := chain.GenesisOptions{EpochInterval: 2, MaxValidators: 2, NoRewards: true, NodeExpiration: 14, Runtime: true, RtGroupSize: 1, RtMinPool: 3, Escrow: []uint64{1500, 650, 3000}} // entity 1 just above its claims (100+200+300)
+	// four compute nodes of three entities, one node per entity allowed: the raw pool (4) meets the
+	// minimum pool size, the pool after the per-entity limit (3) does not
+	rt6 := chain.GenesisOptions{EpochInterval: 2, MaxValidators: 3, NoRewards: true, NodeExpiration: 14, Runtime: true, RtGroupSize: 2, RtMinPool: 4, RtMaxNodesPerEnt: 1, ExtraNodes: true, MaxPerEntity: 2}
 	rt5 := chain.GenesisOptions{EpochInterval: 2, MaxValidators: 3, NoRewards: true, NodeExpiration: 14, Runtime: true, RtGroupSize: 3, RtMinPool: 1, NodeExpirations: []uint64{14, 3, 14}} // pool falls below the group size
-	variants = append(variants, rt1, rt2, rt3, rt4, rt5)
+	variants = append(variants, rt1, rt2, rt3, rt4, rt5, rt6)
 	if !r.Thorough() {
-		variants = []chain.GenesisOptions{variants[2], variants[3], variants[5], variants[6], variants[7], tiny, tiny2, rt1, rt2, rt3, rt4, rt5}
+		variants = []chain.GenesisOptions{variants[2], variants[3], variants[5], variants[6], variants[7], tiny, tiny2, rt1, rt2, rt3, rt4, rt5, rt6}
 	}
 	depth := 2
 	if r.Thorough() {
